@@ -63,8 +63,9 @@ class Contract:
                  raises=None, modifies=(), effects=(), loops=None, locals=None, inline=False, funcs=None,
                  ghost=None, mode="prove", unroll=None, comps=None, name=None, setup=(), max_paths=None,
                  frame=None, lock=None, replay=None, timeout_ms=None, axioms=(), post_setup=(), pure_result=None, asserts=None, nonlinear=False, unreachable_ok=(),
-                 strict_comps=False, feas_timeout_ms=None):
+                 strict_comps=False, feas_timeout_ms=None, feas_fresh=False):
         self.key = key
+        self.feas_fresh = feas_fresh   # branch-feasibility pre-checks use a fresh solver instead of the incremental one
         self.feas_timeout_ms = feas_timeout_ms   # budget of one branch-feasibility pre-check (default 400 ms; unknown = feasible)
         self.strict_comps = strict_comps   # execute comprehension bodies once in exec mode: their exceptions count
         self.prop = prop if isinstance(prop, (list, tuple)) else [prop]
@@ -787,6 +788,7 @@ class Verifier:
         saved_feas = self.feas_timeout_ms
         if c.feas_timeout_ms:
             self.feas_timeout_ms = c.feas_timeout_ms
+        self.feas_fresh = c.feas_fresh
         self.nonlinear = self.nonlinear or c.nonlinear
         if c.timeout_ms:
             self.timeout_ms = c.timeout_ms
